@@ -523,3 +523,335 @@ Proof.
     split; [lra|]. split; [lra|].
     exists (e :: es). split; [constructor; auto|]. simpl. rewrite H4. lra.
 Qed.
+
+(* ------------------------------------------------------------------ *)
+(** * Sorted key lists *)
+
+Lemma SSorted_app {A} (R : A -> A -> Prop) l1 l2 :
+  StronglySorted R l1 -> StronglySorted R l2 -> (forall x y, In x l1 -> In y l2 -> R x y) ->
+  StronglySorted R (l1 ++ l2).
+Proof.
+  induction l1 as [|a r IH]; intros S1 S2 H; simpl; auto.
+  inversion S1; subst. constructor.
+  - apply IH; auto. intros; apply H; auto. right; auto.
+  - apply Forall_app. split; auto. rewrite Forall_forall. intros y Hy. apply H; auto. left; auto.
+Qed.
+
+Lemma SSorted_rev {A} (R : A -> A -> Prop) l :
+  StronglySorted R l -> StronglySorted (fun a b => R b a) (rev l).
+Proof.
+  induction 1 as [|a l S IH F]; simpl; [constructor|].
+  apply SSorted_app; auto.
+  - constructor; constructor.
+  - intros x y Hx [<-|[]]. rewrite Forall_forall in F. apply F. apply in_rev. auto.
+Qed.
+
+Lemma SSorted_lt_inv a l : StronglySorted Z.lt (a :: l) -> forall x, In x l -> (a < x)%Z.
+Proof. intros H. inversion H; subst. rewrite Forall_forall in H3. auto. Qed.
+
+Lemma SSorted_gt_inv a l : StronglySorted (fun x y => (y < x)%Z) (a :: l) -> forall x, In x l -> (x < a)%Z.
+Proof. intros H. inversion H; subst. rewrite Forall_forall in H3. auto. Qed.
+
+(* ------------------------------------------------------------------ *)
+(** * Finite maps *)
+
+Lemma fm_get_in {T} k (m : list (Z * T)) v : fm_get k m = Some v -> In (k, v) m.
+Proof.
+  induction m as [|[k' v'] r IH]; simpl; [discriminate|].
+  destruct (Z.eqb_spec k k') as [->|Hne]; intros H.
+  - inversion H; subst. left; auto.
+  - right; auto.
+Qed.
+
+Lemma cum_desc_keys sum (d : fmap (T:=Q)) : map fst (cum_desc NumQ sum d) = map fst d.
+Proof. revert sum; induction d as [|[k v] r IH]; intros sum; simpl; auto. rewrite IH. reflexivity. Qed.
+
+Lemma walk_down_in thr (d : fmap (T:=Q)) kv : walk_down NumQ thr d = Some kv -> In kv d.
+Proof.
+  induction d as [|a r IH]; simpl; [discriminate|].
+  destruct r as [|b r'].
+  - intros H; inversion H; left; auto.
+  - destruct (ge NumQ _ thr); intros H.
+    + right. apply IH. exact H.
+    + inversion H. left; auto.
+Qed.
+
+Lemma find_sorted_min avg (l : list (Z * Q)) kv :
+  StronglySorted Z.lt (map fst l) ->
+  find (fun kv => (avg <=? fst kv)%Z) l = Some kv ->
+  In kv l /\ (avg <= fst kv)%Z /\ forall kv', In kv' l -> (avg <= fst kv')%Z -> (fst kv <= fst kv')%Z.
+Proof.
+  induction l as [|a r IH]; simpl; [discriminate|]. intros S.
+  destruct (Z.leb_spec avg (fst a)) as [Ha|Ha]; intros H.
+  - inversion H; subst. split; [left; auto|]. split; [auto|].
+    intros kv' [<-|Hin] _; [lia|].
+    assert (fst kv < fst kv')%Z by (eapply SSorted_lt_inv; [exact S|apply in_map; auto]). lia.
+  - inversion S; subst. destruct (IH H2 H) as [I1 [I2 I3]].
+    split; [right; auto|]. split; [auto|].
+    intros kv' [<-|Hin] Hle; [lia|auto].
+Qed.
+
+(* ------------------------------------------------------------------ *)
+(** * Distribution of the integer score *)
+
+Lemma PI_ge_mono ir k1 k2 : wf_rows ir -> (k1 <= k2)%Z -> PI_ge ir k2 <= PI_ge ir k1.
+Proof.
+  intros W H. unfold PI_ge. apply wsum_le; auto. intros l _. apply ind_impl.
+  intros E. apply Z.leb_le in E. apply Z.leb_le. lia.
+Qed.
+
+Lemma PI_ge_le_1 ir k : wf_rows ir -> unit_rows ir -> PI_ge ir k <= 1.
+Proof.
+  intros W U. unfold PI_ge. rewrite <- (wsum_const_unit ir U 1).
+  apply wsum_le; auto. intros l _. apply ind_le_1.
+Qed.
+
+Lemma PI_ge_nonneg ir k : wf_rows ir -> 0 <= PI_ge ir k.
+Proof. intros W. unfold PI_ge. apply wsum_nonneg; auto. intros l _. apply ind_nonneg. Qed.
+
+Lemma PI_gt_ge ir k : PI_gt ir k == PI_ge ir (k + 1).
+Proof.
+  unfold PI_gt, PI_ge. apply wsum_ext_in. intros l _.
+  destruct (Z.ltb_spec k (Zsum l)), (Z.leb_spec (k + 1) (Zsum l)); simpl; try lra; lia.
+Qed.
+
+(* cumulative sums from the top are the tails of the integer score *)
+Lemma cum_desc_spec ir mn :
+  forall (desc : fmap (T:=Q)) sum kprev,
+    StronglySorted (fun x y => (y < x)%Z) (map fst desc) ->
+    (forall kv, In kv desc -> (mn <= fst kv < kprev)%Z /\ snd kv == PI_eq ir (fst kv)) ->
+    sum == PI_ge ir kprev ->
+    (forall l, attain l ir -> (mn <= Zsum l < kprev)%Z -> In (Zsum l) (map fst desc)) ->
+    forall kc, In kc (cum_desc NumQ sum desc) -> snd kc == PI_ge ir (fst kc).
+Proof.
+  induction desc as [|[k v] r IH]; intros sum kprev S V Hs C kc Hin; simpl in Hin; [destruct Hin|].
+  assert (Hk : (mn <= k < kprev)%Z /\ v == PI_eq ir k) by (apply (V (k, v)); left; auto).
+  destruct Hk as [Hk Hv].
+  assert (Hs' : sum + v == PI_ge ir k).
+  { rewrite Hs, Hv. unfold PI_ge, PI_eq. rewrite <- wsum_plus. apply wsum_ext_in. intros l Hl.
+    destruct (Z.leb_spec kprev (Zsum l)), (Z.eqb_spec (Zsum l) k), (Z.leb_spec k (Zsum l));
+      simpl; try lra; try lia.
+    exfalso. assert (Hin' : In (Zsum l) (map fst ((k, v) :: r))) by (apply C; auto; lia).
+    simpl in Hin'. destruct Hin' as [E|Hin']; [lia|].
+    simpl in S. pose proof (SSorted_gt_inv _ _ S _ Hin'). lia. }
+  destruct Hin as [<-|Hin]; [exact Hs'|].
+  simpl in S. inversion S; subst.
+  eapply (IH (n_add NumQ sum v) k); eauto.
+  - intros kv Hkv. destruct (V kv) as [V1 V2]; [right; auto|]. split; auto.
+    assert (fst kv < k)%Z by (eapply SSorted_gt_inv; [exact S|apply in_map; auto]). lia.
+  - intros l Hl Hr. assert (Hin' : In (Zsum l) (map fst ((k, v) :: r))) by (apply C; auto; lia).
+    simpl in Hin'. destruct Hin' as [E|Hin']; [lia|auto].
+Qed.
+
+(* ------------------------------------------------------------------ *)
+(** * lookup_pvalue on an exact table *)
+
+Lemma in_rev1 {A} (l : list A) x : In x (rev l) -> In x l.
+Proof. intros H. apply in_rev in H. auto. Qed.
+Lemma in_rev2 {A} (l : list A) x : In x l -> In x (rev l).
+Proof. intros H. apply in_rev. rewrite rev_involutive. auto. Qed.
+
+Lemma pv_table_sound ir mn mx avg thr (lastm : fmap (T:=Q)) :
+  wf_rows ir -> dist_exact ir mn mx lastm -> (mn <= avg)%Z -> (mn <= mx + 1)%Z ->
+  let pvd := cum_desc NumQ 0 (rev lastm) in
+  let pva := rev pvd in
+  let s := match find (fun kv => (avg <=? fst kv)%Z) pva with Some kv => fst kv | None => (mx + 1)%Z end in
+  forall pmin kv,
+    fm_get s pva = Some pmin ->
+    walk_down NumQ thr (filter (fun kv => (fst kv <=? s)%Z) pvd) = Some kv ->
+    pmin == PI_ge ir s /\ snd kv == PI_ge ir (fst kv) /\ (mn <= fst kv <= s)%Z /\
+    (forall l, attain l ir -> (avg <= Zsum l)%Z -> (s <= Zsum l)%Z).
+Proof.
+  intros W [body [vb [Hl [Hsort [Hbody [Hvb Hcomp]]]]]] Hmn Hmx pvd pva s pmin kv Hget Hwalk.
+  (* every cumulative sum is a tail *)
+  assert (Hrev : rev lastm = ((mx + 1)%Z, vb) :: rev body).
+  { rewrite Hl, rev_app_distr. reflexivity. }
+  assert (Hpvd : forall kc, In kc pvd -> snd kc == PI_ge ir (fst kc)).
+  { unfold pvd. rewrite Hrev. simpl. intros kc [<-|Hin].
+    - simpl. rewrite Hvb, PI_gt_ge. lra.
+    - eapply (cum_desc_spec ir mn (rev body) (0 + vb) (mx + 1)%Z); eauto.
+      + rewrite map_rev. apply (SSorted_rev Z.lt). exact Hsort.
+      + intros kv' Hkv'. apply in_rev1 in Hkv'. destruct (Hbody _ Hkv') as [B1 B2]. split; [lia|auto].
+      + rewrite Hvb, PI_gt_ge. lra.
+      + intros l Hat Hr. rewrite map_rev. apply in_rev2. apply Hcomp; auto. lia. }
+  (* keys *)
+  assert (Hkeys : map fst pva = map fst body ++ [(mx + 1)%Z]).
+  { unfold pva, pvd. rewrite map_rev, cum_desc_keys, map_rev, rev_involutive, Hl, map_app. reflexivity. }
+  assert (Hbk : forall k, In k (map fst body) -> (mn <= k <= mx)%Z).
+  { intros k Hk. apply in_map_iff in Hk. destruct Hk as [kv' [<- Hkv']]. apply Hbody; auto. }
+  assert (Hsorted : StronglySorted Z.lt (map fst pva)).
+  { rewrite Hkeys. apply SSorted_app; auto.
+    - constructor; constructor.
+    - intros x y Hx [<-|[]]. apply Hbk in Hx. lia. }
+  assert (Hrange : forall kc, In kc pva -> (mn <= fst kc <= mx + 1)%Z).
+  { intros kc Hkc. assert (In (fst kc) (map fst pva)) by (apply in_map; auto).
+    rewrite Hkeys in H. apply in_app_or in H. destruct H as [H|[<-|[]]]; [apply Hbk in H|]; lia. }
+  assert (Hs : (mn <= s <= mx + 1)%Z /\
+               forall kv', In kv' pva -> (avg <= fst kv')%Z -> (s <= fst kv')%Z).
+  { unfold s. destruct (find _ pva) as [kv0|] eqn:Ef.
+    - destruct (find_sorted_min avg pva kv0 Hsorted Ef) as [F1 [F2 F3]]. split; auto.
+    - split; [lia|]. intros kv' Hin Hle. pose proof (find_none _ _ Ef kv' Hin) as Hf. simpl in Hf.
+      apply Z.leb_gt in Hf. lia. }
+  destruct Hs as [Hs1 Hs2].
+  apply fm_get_in in Hget. apply walk_down_in in Hwalk. apply filter_In in Hwalk.
+  destruct Hwalk as [Hw1 Hw2]. apply Z.leb_le in Hw2.
+  split; [|split; [|split]].
+  - apply (Hpvd (s, pmin)). apply in_rev1. exact Hget.
+  - apply Hpvd; auto.
+  - assert (In kv pva) by (apply in_rev2; auto). apply Hrange in H. lia.
+  - intros l Hat Havg. destruct (Z.leb_spec (Zsum l) mx) as [Hle|Hgt]; [|lia].
+    assert (Hin : In (Zsum l) (map fst body)) by (apply Hcomp; auto; lia).
+    assert (Hin' : In (Zsum l) (map fst pva)) by (rewrite Hkeys; apply in_or_app; left; auto).
+    apply in_map_iff in Hin'. destruct Hin' as [kv' [E Hkv']]. rewrite <- E. apply Hs2; auto. lia.
+Qed.
+
+(* ------------------------------------------------------------------ *)
+(** * lookup_pvalue_sound *)
+
+Definition matrix_ok (K : nat) (rows : list (list Q)) (bg : list Q) : Prop :=
+  (2 <= K)%nat /\ Forall (fun r => length r = K) rows /\ length bg = K /\
+  (forall b, In b bg -> 0 <= b) /\ bg_unit (K - 1) bg /\
+  Forall (fun r => last r 0 <= 0) rows.
+
+Lemma permuted_rows_spec (rows : list (list Q)) perm prow :
+  permuted_rows rows perm = Ok prow ->
+  length prow = length perm /\ Forall (fun r => In r rows) prow /\
+  map cells prow = perm_cells rows perm.
+Proof.
+  unfold permuted_rows. intros H. apply rall_map_ok in H.
+  induction H as [|p r perm' prow' Hp Hrest IH]; simpl.
+  - repeat split; constructor.
+  - destruct IH as [I1 [I2 I3]]. destruct (nth_error rows p) as [r'|] eqn:E; [|discriminate].
+    inversion Hp; subst. split; [lia|]. split.
+    + constructor; auto. eapply nth_error_In; eauto.
+    + unfold perm_cells in *. simpl. rewrite I3. f_equal. unfold cells.
+      rewrite (nth_error_nth _ _ _ E). reflexivity.
+Qed.
+
+Lemma cells_length (r : list Q) K : length r = K -> length (cells r) = (K - 1)%nat.
+Proof.
+  intros H. unfold cells. destruct r as [|a r'] using rev_ind; [simpl in *; lia|].
+  rewrite removelast_last. rewrite app_length in H. simpl in H. lia.
+Qed.
+
+Lemma up_arith (g S O I M score : Q) :
+  0 < g -> score + (M + 1) * g <= S -> 0 <= S / g + O - I -> S / g + O - I <= M ->
+  score / g + O + 1 <= I.
+Proof.
+  intros Hg H1 H2 H3.
+  assert (E : (score + (M + 1) * g) / g == score / g + (M + 1)) by (field; lra).
+  assert (H4 : (score + (M + 1) * g) / g <= S / g).
+  { unfold Qdiv. apply Qmult_le_compat_r; auto. apply Qlt_le_weak. apply Qinv_lt_0_compat; auto. }
+  rewrite E in H4. lra.
+Qed.
+
+Lemma dn_arith (g S O I M score em : Q) (mn : Z) :
+  0 < g -> mn = Qfloor (score / g + O - em - 1) -> inject_Z mn <= I -> em <= M ->
+  0 <= S / g + O - I -> score - (M + 2) * g <= S.
+Proof.
+  intros Hg Hmn H1 H2 H3.
+  pose proof (Qlt_floor (score / g + O - em - 1)) as F. rewrite <- Hmn in F.
+  rewrite inject_Z_plus in F. change (inject_Z 1) with 1 in F.
+  assert (H4 : score / g - (M + 2) <= S / g) by lra.
+  assert (E1 : S / g * g == S) by (field; lra).
+  assert (E2 : score / g * g == score) by (field; lra).
+  set (u := S / g) in *. set (v := score / g) in *. nra.
+Qed.
+
+Lemma attain_map {A B} (h : A -> B) (l : list A) (rows : list (list (A * Q))) :
+  attain l rows -> attain (map h l) (map (map (fun ab => (h (fst ab), snd ab))) rows).
+Proof.
+  induction 1 as [|a r l' rows' Hin Hrest IH]; simpl; constructor; auto.
+  rewrite map_map. simpl. apply in_map_iff in Hin. destruct Hin as [ab [<- Hab]].
+  apply in_map_iff. exists ab. auto.
+Qed.
+
+Lemma tl_map {A B} (f : A -> B) l : tl (map f l) = map f (tl l).
+Proof. destruct l; reflexivity. Qed.
+
+Lemma Forall_tl {A} (P : A -> Prop) l : Forall P l -> Forall P (tl l).
+Proof. destruct 1; simpl; auto. Qed.
+
+Theorem lookup_pvalue_sound rows perm bg K g G score o :
+  matrix_ok K rows bg -> 0 < g -> length perm = length rows ->
+  recompute NumQ rows perm g = Ok G ->
+  lookup_pvalue NumQ G bg score = Ok o ->
+  dist_exact (irows (g_int G) bg) (pv_lo o) (pv_hi o) (last (pv_rows o) []) ->
+  let M := inject_Z (Z.of_nat (length rows)) in
+  let cs := perm_cells rows perm in
+  pv_min o <= pv_max o /\ 0 <= pv_min o /\ pv_max o <= 1 /\
+  tailS cs bg (score + (M + 1) * g) <= pv_min o /\
+  pv_max o <= tailS cs bg (score - (M + 2) * g).
+Proof.
+  intros [HK [Hlen [Hbgl [Hbg [Hunit Hwild]]]]] Hg Hperm Hrec Hlook Hdist M cs.
+  destruct (recompute_Q_geom _ _ _ _ Hrec) as [prow [Hp [Hgran [Hg1 [Hint [Hoff [Hne [_ [_ Hem]]]]]]]]].
+  destruct (permuted_rows_spec _ _ _ Hp) as [Hplen [Hpin Hcells]].
+  set (css := map cells prow) in *.
+  assert (Hcs : cs = css) by (unfold cs; symmetry; exact Hcells).
+  (* error_max bounds *)
+  rewrite combine_map_self, tl_map in Hem.
+  assert (Hrowsok : Forall (fun r => cells r <> [] /\ last r 0 <= 0) prow).
+  { rewrite Forall_forall in *. intros r Hr. split; [apply Hne; auto|apply Hwild; apply Hpin; auto]. }
+  apply error_max_from_Q in Hem; auto; [|apply Forall_tl; auto].
+  destruct Hem as [Em0 [Em1 _]].
+  assert (EmM : g_emax G <= M).
+  { unfold M. rewrite <- Hperm, <- Hplen.
+    assert (inject_Z (Z.of_nat (length (tl prow))) <= inject_Z (Z.of_nat (length prow))).
+    { rewrite <- Zle_Qle. destruct prow; simpl; lia. }
+    lra. }
+  (* unfold the lookup *)
+  unfold lookup_pvalue in Hlook. cbn [NumQ n_isnan n_add n_sub n_div n_ofZ n_floorZ n_one n_zero] in Hlook.
+  apply rbind_ok in Hlook. destruct Hlook as [osum [Hosum Hlook]].
+  apply rbind_ok in Hlook. destruct Hlook as [rows_t [Hrows_t Hlook]].
+  apply sum_i64_ok in Hosum. rewrite Z.add_0_l in Hosum.
+  rewrite Hgran in Hlook.
+  set (scaled := score / g + inject_Z osum) in *.
+  set (avg := Qfloor scaled) in *.
+  set (mx := Qfloor (scaled + g_emax G + 1)) in *.
+  set (mn := Qfloor (scaled - g_emax G - 1)) in *.
+  set (lastm := last rows_t []) in *.
+  destruct (fm_get _ _) as [pmin|] eqn:Hget; [|discriminate].
+  destruct (walk_down _ _ _) as [kv|] eqn:Hwalk; [|discriminate].
+  inversion Hlook; subst o; clear Hlook. simpl in *.
+  fold mx in Hdist. fold mn in Hdist. fold lastm in Hdist.
+  set (ir := irows (g_int G) bg) in *.
+  assert (W : wf_rows ir) by (apply wf_irows; auto).
+  assert (U : unit_rows ir).
+  { apply (unit_irows (K - 1)); auto; [lia|]. rewrite Hint. unfold ints_of. rewrite Forall_forall.
+    intros r Hr. apply in_map_iff in Hr. destruct Hr as [c [<- Hc]]. rewrite map_length.
+    unfold css in Hc. apply in_map_iff in Hc. destruct Hc as [r0 [<- Hr0]]. apply cells_length.
+    rewrite Forall_forall in Hlen, Hpin. apply Hlen. apply Hpin. auto. }
+  assert (Hmnavg : (mn <= avg)%Z) by (apply Qfloor_resp_le; lra).
+  assert (Havgmx : (avg <= mx)%Z) by (apply Qfloor_resp_le; lra).
+  destruct (pv_table_sound ir mn mx avg _ lastm W Hdist Hmnavg ltac:(lia) pmin kv Hget Hwalk)
+    as [Hpmin [Hpmax [Hkv Hs]]].
+  set (s := match find (fun kv0 : Z * Q => (avg <=? fst kv0)%Z) (rev (cum_desc NumQ 0 (rev lastm))) with
+            | Some kv0 => fst kv0 | None => (mx + 1)%Z end) in *.
+  rewrite Hpmin, Hpmax.
+  split. { apply PI_ge_mono; auto. lia. }
+  split. { apply PI_ge_nonneg; auto. }
+  split. { apply PI_ge_le_1; auto. }
+  (* the two brackets, through the joint rows *)
+  assert (WJ : wf_rows (jrows g bg css)) by (apply wf_jrows; auto).
+  assert (Hosum' : osum = Zsum (offs_of g css)) by (rewrite Hosum, Hoff; reflexivity).
+  assert (HM : M = inject_Z (Z.of_nat (length css))).
+  { unfold M, css. rewrite map_length, Hplen, Hperm. reflexivity. }
+  unfold tailS. rewrite Hcs. unfold PI_ge, ir. rewrite Hint.
+  rewrite !(wsum_S_joint g), !(wsum_I_joint g).
+  split.
+  - apply wsum_le; auto. intros l Hl. apply ind_impl. intros Hle.
+    apply Qle_bool_iff in Hle. apply Z.leb_le.
+    destruct (int_score_error_coarse g bg css l Hg Hl) as [E0 [E1 _]]. rewrite <- HM, <- Hosum' in *.
+    apply Hs.
+    + unfold ir. rewrite Hint, (irows_jrows g). apply (attain_map (fun xc : Q * Z => snd xc)). exact Hl.
+    + pose proof (up_arith g _ _ _ M score Hg Hle E0 E1) as HA. fold scaled in HA.
+      pose proof (Qfloor_le scaled) as HF. fold avg in HF.
+      apply Zle_Qle. lra.
+  - apply Qle_trans with (wsum (jrows g bg css) (fun l => ind (mn <=? Zsum (map (fun xc : Q * Z => snd xc) l))%Z)).
+    + apply wsum_le; auto. intros l _. apply ind_impl. intros E. apply Z.leb_le in E. apply Z.leb_le. lia.
+    + apply wsum_le; auto. intros l Hl. apply ind_impl. intros Hle. apply Z.leb_le in Hle.
+      apply Qle_bool_iff.
+      destruct (int_score_error_coarse g bg css l Hg Hl) as [E0 [E1 _]]. rewrite <- HM, <- Hosum' in *.
+      apply (dn_arith g _ (inject_Z osum) (inject_Z (Zsum (map (fun xc : Q * Z => snd xc) l))) M score (g_emax G) mn); auto.
+      rewrite <- Zle_Qle. exact Hle.
+Qed.
